@@ -98,6 +98,9 @@ def run_fault(pr, fault, vcs, dry_first, set_version):
 
 def run(chk, driver, tier):
     rng = chk.rng
+    # the LEGACY engine end to end: a pattern without a match (also: one that would match only with its blanks stripped) fails the whole update
+    import props.v1e2e as v1e2e
+    v1e2e.run(chk, 300 if tier == "thorough" else 30, driver, faults=0.7)
     # the COMPOSED model of the whole command (Model/Update.lean, theorems Props/Update.lean) against the real CLI: exit code, event trace and
     # every configured file afterwards, on generated projects x the flag/config lattice x tag and status listings x faults x failure positions
     import props.updfull as updfull
